@@ -7,7 +7,9 @@ import (
 	"encoding/json"
 	"reflect"
 	"strconv"
+	"sync"
 	"testing"
+	"time"
 
 	"github.com/gotid/god/internal/verifdrv"
 	"github.com/spaolacci/murmur3"
@@ -255,6 +257,10 @@ func TestVerifDriver(t *testing.T) {
 			}
 			return map[string]any{"got": got, "ref": want}
 		}
+		var rc verifRaceCase
+		if err := json.Unmarshal(raw, &rc); err == nil && rc.Kind == "race" {
+			return verifRace(rc)
+		}
 		var c verifCase
 		if err := json.Unmarshal(raw, &c); err != nil {
 			return map[string]any{"error": err.Error()}
@@ -395,4 +401,117 @@ func TestVerifDriver(t *testing.T) {
 		return map[string]any{"replicas": h.replicas, "results": results, "vhash": table, "phash": ph, "ihash": ih,
 			"nkeys": len(h.keys), "nring": len(h.ring), "oppanic": oppanic, "nrepr": nrepr, "krepr": krepr, "unstable": unstable}
 	})
+}
+
+// verifRaceCase: a Get parked in the middle of its lookup (inside the hash function, which the ring lets the caller
+// supply) while a complete Remove(node) is attempted, two other nodes being present all the time.
+type verifRaceCase struct {
+	Kind     string            `json:"kind"`
+	Replicas int               `json:"replicas"`
+	Kinds    []string          `json:"kinds"`  // kinds of nodes 0, 1, 2
+	Remove   int               `json:"remove"` // the node removed during the parked Get
+	Probes   []json.RawMessage `json:"probes"`
+}
+
+func verifRace(c verifRaceCase) any {
+	type row struct {
+		Pre      int  `json:"pre"`      // owner before anything happens
+		Ans      int  `json:"ans"`      // answer of the Get that overlapped the Remove (-1 absent, -3 panic)
+		Post     int  `json:"post"`     // owner after both returned
+		Overtook bool `json:"overtook"` // Remove returned while the Get was still parked
+		Hung     bool `json:"hung"`     // Get or Remove did not return
+	}
+	rows := make([]row, 0, len(c.Probes))
+	for _, raw := range c.Probes {
+		key := verifMakeKey(raw)
+		var mu sync.Mutex
+		var armed []byte
+		parked := make(chan struct{})
+		release := make(chan struct{})
+		fn := func(data []byte) uint64 {
+			mu.Lock()
+			hit := armed != nil && string(armed) == string(data)
+			if hit {
+				armed = nil
+			}
+			mu.Unlock()
+			if hit {
+				close(parked)
+				<-release
+			}
+			return Hash(data)
+		}
+		h := NewCustomConsistentHash(c.Replicas, fn)
+		nodes := make([]any, 3)
+		for i := range nodes {
+			nodes[i] = verifMakeNode(verifNodeKind(c.Kinds, i), i)
+			h.Add(nodes[i])
+		}
+		idOf := func(got any, ok bool, panicked bool) int {
+			if panicked {
+				return -3
+			}
+			if !ok {
+				return -1
+			}
+			for i, n := range nodes {
+				if reflect.DeepEqual(n, got) {
+					return i
+				}
+			}
+			return -2
+		}
+		var r row
+		got, ok := h.Get(key)
+		r.Pre = idOf(got, ok, false)
+		mu.Lock()
+		armed = []byte(repr(key))
+		mu.Unlock()
+		getDone := make(chan int, 1)
+		go func() {
+			var g any
+			var o bool
+			p := verifTry(func() { g, o = h.Get(key) })
+			getDone <- idOf(g, o, p)
+		}()
+		select {
+		case <-parked:
+		case <-time.After(2 * time.Second):
+			r.Hung = true
+		}
+		rmDone := make(chan bool, 1)
+		go func() { rmDone <- verifTry(func() { h.Remove(nodes[c.Remove]) }) }()
+		rmPanicked, rmReturned := false, false
+		select {
+		case rmPanicked = <-rmDone: // the Remove ran to completion although a lookup was in progress
+			r.Overtook, rmReturned = true, true
+		case <-time.After(30 * time.Millisecond): // it waits for the lookup (the lock is held): let the Get go on
+		}
+		close(release)
+		select {
+		case r.Ans = <-getDone:
+		case <-time.After(2 * time.Second):
+			r.Hung, r.Ans = true, -3
+		}
+		if !rmReturned {
+			select {
+			case rmPanicked = <-rmDone:
+			case <-time.After(2 * time.Second):
+				r.Hung = true
+			}
+		}
+		if rmPanicked {
+			r.Hung = true
+		}
+		if !r.Hung {
+			var g any
+			var o bool
+			p := verifTry(func() { g, o = h.Get(key) })
+			r.Post = idOf(g, o, p)
+		} else {
+			r.Post = -3
+		}
+		rows = append(rows, r)
+	}
+	return map[string]any{"rows": rows}
 }
